@@ -178,11 +178,175 @@ def find_depending_unit(res):
     return res
 
 
+HW = "osaca/semantics/hw_model.py"
+
+
+class GhostDG:
+    """ghost stand-in for nx.DiGraph (A: add_node/add_edge have overwrite semantics): records add_edge calls"""
+
+    def __init__(self, on_edge):
+        self.on_edge = on_edge
+
+    def sym_havoc(self, ex, tag):
+        return self
+
+    def sym_method(self, ex, name, args, kw):
+        if name == "add_node":
+            return None
+        if name == "add_edge":
+            self.on_edge(ex, args[0], args[1], kw.get("latency"))
+            return None
+        raise Unsupported("DiGraph." + name)
+
+    def sym_getattr(self, ex, attr):
+        if attr == "nodes":
+            return GhostNodes()
+        return PyMethod(self, attr)
+
+
+class GhostNodes:
+    def sym_getitem(self, ex, k):
+        return GhostAttrs()
+
+
+class GhostAttrs:
+    def sym_setitem(self, ex, k, v):
+        return None
+
+
+class TagList:
+    """dep_flags yielded by find_depending: [] | ["p_indexed"] | ["storeload_dep"]"""
+
+    def __init__(self, t):
+        self.t = t
+
+    def sym_contains(self, ex, item):
+        if item == "p_indexed":
+            return SBool(self.t == 1)
+        if item == "storeload_dep":
+            return SBool(self.t == 2)
+        return False
+
+
+def create_dg_unit(res):
+    H = Heap()
+    ex = Engine([REPO + "/" + f for f in (HW, ISA, KDG)])
+    fn, _ = ex.find_method("KernelDG", "create_DG")
+    ex.index_loops(fn)
+    lat = z3.Function("ins_lat", I, R)
+    haslwl = z3.Function("ins_has_lwl", I, B)
+    lwl = z3.Function("ins_lwl", I, R)
+    has_ld = z3.Function("ins_HAS_LD", I, B)
+    is_ld = z3.Function("ins_LD", I, B)
+
+    class Flags:
+        def __init__(self, t):
+            self.t = t
+
+        def sym_contains(self, ex_, item):
+            if item == "performs_load":
+                return SBool(has_ld(self.t))
+            if item == "is_load_instruction":
+                return SBool(is_ld(self.t))
+            raise Unsupported("flag " + str(item))
+
+    ins = Schema("insd", ["InstructionForm"], {"line_number": ("int",), "latency": ("real",), "latency_wo_load": ("optreal",), "flags": ("custom", None)})
+    ins.fn["line_number"] = H.line
+    ins.fn["latency"] = lat
+    ins.fn["latency_wo_load"] = (haslwl, lwl)
+    ins.fn["flags"] = lambda ex_, ref: Flags(ref.t)
+    karr, KL = z3.Array("kernel", I, I), z3.Int("klen")
+    ypos = z3.Function("ypos", I, I, I)  # position (in the slice) of the k-th dependency yielded for instruction i
+    ytag = z3.Function("ytag", I, I, I)
+    ylen = z3.Function("ylen", I, I)
+    fwd, pidx = z3.Reals("fwd pidx")
+    state = {}
+
+    def find_depending(ex_, so, a, kw):
+        instr, later, fd = a[0], a[1], a[2] if len(a) > 2 else kw.get("flag_dependencies")
+        i = state["i"]
+        ex_.oblige("find_depending/args", z3.And(instr.t == z3.Select(karr, i), later.length == z3.If(KL > i + 1, KL - (i + 1), 0)))
+        state["later"] = later
+        return SymSeq(ylen(i), lambda k: (later.at(ypos(i, k)), TagList(ytag(i, k))))
+
+    ex.abstract["find_depending"] = find_depending
+
+    def on_edge(ex_, a, b, w):
+        i = state["i"]
+        me = z3.Select(karr, i)
+        ln = H.line(me)
+        at, bt, wt = real_term(a), real_term(b), real_term(w)
+        if state.get("dep") is None:
+            state["load_edges"] = state.get("load_edges", 0) + 1
+            ex_.oblige("load-edge", z3.And(has_ld(me), z3.Not(is_ld(me)), at == z3.ToReal(ln) + z3.RealVal("1/10"), bt == z3.ToReal(ln),
+                                           wt == lat(me) - lwl(me)))
+        else:
+            k = state["dep"]
+            state["dep_edges"] = state.get("dep_edges", 0) + 1
+            dep_ref = state["later"].at(ypos(i, k)).t
+            tag = ytag(i, k)
+            plain = z3.If(haslwl(me), lwl(me), lat(me))
+            mode = state["model"]
+            want = plain
+            if mode != "none":
+                f = fwd if mode == "full" else z3.RealVal(0)
+                p_ = pidx if mode == "full" else z3.RealVal(1)
+                want = z3.If(tag == 1, p_, z3.If(tag == 2, plain + f, plain))
+            ex_.oblige("dep-edge", z3.And(at == z3.ToReal(ln), bt == z3.ToReal(H.line(dep_ref)), wt == want))
+
+    class Outer:
+        def on_body_start(self, ex_, env, k):
+            state.update(i=k, dep=None, load_edges=0)
+
+        def on_body_end(self, ex_, env, k):
+            me = z3.Select(karr, k)
+            n = state.get("load_edges", 0)
+            ex_.oblige("load-node-iff", z3.BoolVal(n == 1) == z3.And(has_ld(me), z3.Not(is_ld(me))) if n <= 1 else False)
+
+    class Inner:
+        def on_body_start(self, ex_, env, k):
+            state.update(dep=k, dep_edges=0)
+
+        def on_body_end(self, ex_, env, k):
+            ex_.oblige("one-edge-per-dependency", state.get("dep_edges", 0) == 1)
+            state["dep"] = None
+
+    ex.loop_hooks[("create_DG", 0)] = Outer()
+    ex.loop_hooks[("create_DG", 1)] = Inner()
+    ex.invariants[("create_DG", 0)] = lambda ex_, env, k: z3.BoolVal(True)
+    ex.invariants[("create_DG", 1)] = lambda ex_, env, k: z3.BoolVal(True)
+    ex.abstract["nx.DiGraph"] = lambda ex_, so, a, kw: GhostDG(on_edge)
+    q, r_ = z3.Ints("q r_")
+    # type invariant established by assign_tp_lt (C08 postcondition): every analysed line has a numeric latency_wo_load
+    pre = [KL >= 0, z3.ForAll([q], ylen(q) >= 0), z3.ForAll([q], z3.Implies(z3.And(has_ld(q), z3.Not(is_ld(q))), haslwl(q))),
+           z3.ForAll([q, r_], z3.Implies(z3.And(0 <= r_, r_ < ylen(q)), z3.And(0 <= ypos(q, r_), ypos(q, r_) < z3.If(KL > q + 1, KL - (q + 1), 0),
+                                                                               0 <= ytag(q, r_), ytag(q, r_) <= 2)))]
+    for mode in ("full", "defaults", "none"):
+        def run():
+            state.clear()
+            state["model"] = mode
+            mm = None
+            if mode != "none":
+                mm = SObj("MachineModel", _data={"store_to_load_forward_latency": SNum(fwd, False), "p_index_latency": SNum(pidx, False)} if mode == "full" else {})
+            selfo = SObj("KernelDG", model=mm)
+            kernel = SymSeq.of_refs(karr, KL, ins)
+            return ex.call_method("KernelDG", "create_DG", selfo, [kernel, SBool(z3.Bool("fd"))])
+
+        paths = ex.explore(run, pre)
+        n = res.add_paths(paths, lambda v, p: isinstance(v, GhostDG), kind=f"post[{mode}]")
+        res.note(f"model={mode}: {len(paths)} paths")
+    # L: every dependency edge points forward: consumer index = i + 1 + pos > i and line numbers increase with the index
+    i0, p0 = z3.Ints("i0 p0")
+    res.add("lemma/forward", [p0 >= 0], i0 + 1 + p0 > i0, label="L")
+    return res
+
+
 def units(tier):
     return [
         Unit("C03/is_read", read_written_unit("is_read"), "P", [(KDG, "KernelDG.is_read")]),
         Unit("C03/is_written", read_written_unit("is_written"), "P", [(KDG, "KernelDG.is_written")]),
         Unit("C03/find_depending", find_depending_unit, "P", [(KDG, "KernelDG.find_depending")]),
+        Unit("C03/create_DG", create_dg_unit, "P", [(KDG, "KernelDG.create_DG")]),
         bounded_unit("C03/pipeline-vs-RAW-oracle", "dg_oracle", [(KDG, "KernelDG.create_DG"), (KDG, "KernelDG.find_depending"),
                      (ISA, "ISASemantics.assign_src_dst")], extra_args=["C03"], timeout=1500),
     ]
